@@ -127,10 +127,12 @@ theorem inv_fork {s : CState} (hs : Inv s) (tn : Table)
 
 mutual
 /-- over-approximation of "the statement may complete normally" that the code generator agrees
-    with: `return` never does, a block does when its list does, everything else may -/
+    with: `return` never does, a block does when its list does, `if true { … }` (only the body is compiled)
+    does when the body does, everything else may -/
 def fallS : Stmt → Bool
   | .return_ _ _ => false
   | .block _ body => fallL body
+  | .if_ _ _ c _ body _ => !isTrueLit c || fallL body
   | _ => true
 def fallL : List Stmt → Bool
   | [] => true
@@ -141,6 +143,28 @@ theorem fallS_block (pos : Pos) (body : List Stmt) : fallS (.block pos body) = f
   first | rfl | simp [fallS]
 theorem fallS_return (pos : Pos) (e : Option Expr) : fallS (.return_ pos e) = false := by
   first | rfl | simp [fallS]
+theorem fallS_if (pos : Pos) (init : Option Stmt) (c : Expr) (bp : Pos) (body : List Stmt) (els : Option Stmt) :
+    fallS (.if_ pos init c bp body els) = (!isTrueLit c || fallL body) := by
+  first | rfl | simp [fallS]
+theorem execStmt_ifG (F : FloatOps) (fuel : Nat) (env : Sem.Env) (pos : Pos) (init : Option Stmt) (bp : Pos) (c : Expr)
+    (body : List Stmt) (else_ : Option Stmt) :
+    Sem.execStmt F (fuel + 1) env (.if_ pos init c bp body else_) = (do
+      let (c0, env1) ← (match init with
+        | some i => Sem.execStmt F fuel ([] :: env) i
+        | none => pure (Sem.Comp.normal, [] :: env))
+      match c0 with
+      | .normal =>
+        match (← Sem.evalExpr F fuel env1 c) with
+        | .thr a => pure (.thr a, env)
+        | .val cv =>
+          if !(← Sem.liftM (isFalsy cv)) then do
+            let (c, _) ← Sem.execBlock F fuel env1 body
+            pure (c, env)
+          else
+            match else_ with
+            | some e => do let (c, _) ← Sem.execStmt F fuel env1 e; pure (c, env)
+            | none => pure (.normal, env)
+      | c => pure (c, env)) := rfl
 theorem fallL_nil : fallL [] = true := by first | rfl | simp [fallL]
 theorem fallL_cons (s : Stmt) (r : List Stmt) : fallL (s :: r) = (fallS s && fallL r) := by
   first | rfl | simp [fallL]
@@ -192,6 +216,68 @@ theorem normal_fall_aux (F : FloatOps) : ∀ (n fuel : Nat), fuel ≤ n →
           have hc1 := hce.1
           subst hc1
           exact (normal_fall_aux F n f (by omega)).2 body _ _ _ _ _ _ h1
+      | if_ pos init c bp body els =>
+        rw [fallS_if]
+        cases hT : isTrueLit c with
+        | false => rfl
+        | true =>
+          obtain ⟨p, rfl⟩ := isTrueLit_inv hT
+          show fallL body = true
+          rw [execStmt_ifG] at hsem
+          obtain ⟨⟨c0, env1⟩, ss0, t0, h0, hsem⟩ := sm_bind_inv hsem
+          cases c0 with
+          | normal =>
+            simp only at hsem
+            obtain ⟨rc, ss1, t1, hev, hsem⟩ := sm_bind_inv hsem
+            cases fuel with
+            | zero =>
+              have h00 : Sem.evalExpr F 0 env1 (.bool p true) = Sem.liftM (unsupported "sem: fuel") := rfl
+              rw [h00] at hev; exact (sm_unsupported_ne hev).elim
+            | succ f =>
+              have h1 : Sem.evalExpr F (f + 1) env1 (.bool p true) = pure (.val (.bool true)) := rfl
+              rw [h1] at hev
+              obtain ⟨hrc, rfl, rfl⟩ := sm_pure_inv hev
+              subst hrc
+              simp only at hsem
+              obtain ⟨fl, ss2, t2, hfl, hsem⟩ := sm_bind_inv hsem
+              obtain ⟨rfl, hfl'⟩ := sm_liftM_inv hfl
+              have hf : ∀ w : State, exec (isFalsy (.bool true)) w = (.ok false, w) := fun _ => rfl
+              rw [hf] at hfl'
+              simp only [Prod.mk.injEq, Except.ok.injEq] at hfl'
+              obtain ⟨rfl, rfl⟩ := hfl'
+              simp only [Bool.not_false, if_true] at hsem
+              obtain ⟨⟨c1, envX⟩, ss3, t3, hb, hsem⟩ := sm_bind_inv hsem
+              obtain ⟨hce, rfl, rfl⟩ := sm_pure_inv hsem
+              simp only [Prod.mk.injEq] at hce
+              have hc1 := hce.1
+              subst hc1
+              rw [execBlock_succ] at hb
+              obtain ⟨⟨c2, envY⟩, ss4, t4, hl, hb⟩ := sm_bind_inv hb
+              obtain ⟨hce2, rfl, rfl⟩ := sm_pure_inv hb
+              simp only [Prod.mk.injEq] at hce2
+              have hc2 := hce2.1
+              subst hc2
+              exact (normal_fall_aux F n f (by omega)).2 body _ _ _ _ _ _ hl
+          | brk =>
+            simp only at hsem
+            obtain ⟨hce, _, _⟩ := sm_pure_inv hsem
+            simp only [Prod.mk.injEq] at hce
+            cases hce.1
+          | cont =>
+            simp only at hsem
+            obtain ⟨hce, _, _⟩ := sm_pure_inv hsem
+            simp only [Prod.mk.injEq] at hce
+            cases hce.1
+          | ret v =>
+            simp only at hsem
+            obtain ⟨hce, _, _⟩ := sm_pure_inv hsem
+            simp only [Prod.mk.injEq] at hce
+            cases hce.1
+          | thr a =>
+            simp only at hsem
+            obtain ⟨hce, _, _⟩ := sm_pure_inv hsem
+            simp only [Prod.mk.injEq] at hce
+            cases hce.1
       | _ => first | rfl | simp [fallS]
     · intro l env ss ss' t t' env' hsem
       cases l with
@@ -388,12 +474,11 @@ theorem withBlock_inv (F : FloatOps) {B B1 : List String} {nd : Nat} {act : Comp
   obtain ⟨_, rfl⟩ := hpop
   exact ⟨cs1, cs2, hact, hi1, rfl, hcov1, hok1, hinv1⟩
 
-theorem fall_block (F : FloatOps) (B : List String) (pos : Pos) (body : List Stmt) (hb : StmtsF B body = true)
-    (fb : FallL B body) : FallS B (.block pos body) := by
-  intro cs cs' hc hcov hok hinv hf
-  rw [fallS_block] at hf
-  rw [Compile.compileStmt_eq] at hc
-  simp only at hc
+theorem falls_blockOf (F : FloatOps) (B : List String) (body : List Stmt) (hb : StmtsF B body = true)
+    (fb : FallL B body) {cs cs' : CState}
+    (hc : runCM (Compile.blockOf body (compileStmts body)) cs = (.ok (), cs'))
+    (hcov : Cov B (localIdx cs)) (hok : CsOK cs) (hinv : Inv cs) (hf : fallL body = true) :
+    Falls cs'.insts cs.insts.size cs'.insts.size := by
   unfold Compile.blockOf at hc
   cases body with
   | nil =>
@@ -406,6 +491,46 @@ theorem fall_block (F : FloatOps) (B : List String) (pos : Pos) (body : List Stm
       withBlock_inv F hc (good_stmts F (s :: r) B hb) hcov hok hinv
     have := fb cs1 cs2 hact hcov1 hok1 hinv1 hf
     rw [hi', ← hi1]; exact this
+
+theorem fall_block (F : FloatOps) (B : List String) (pos : Pos) (body : List Stmt) (hb : StmtsF B body = true)
+    (fb : FallL B body) : FallS B (.block pos body) := by
+  intro cs cs' hc hcov hok hinv hf
+  rw [fallS_block] at hf
+  rw [Compile.compileStmt_eq] at hc
+  simp only at hc
+  exact falls_blockOf F B body hb fb hc hcov hok hinv hf
+
+/-- `if true { … }`: the body only -/
+theorem fall_ifTrue (F : FloatOps) (B : List String) (pos bp p : Pos) (body : List Stmt) (els : Option Stmt)
+    (hb : StmtsF B body = true) (fb : FallL B body) : FallS B (.if_ pos none (.bool p true) bp body els) := by
+  intro cs cs' hc hcov hok hinv hf
+  rw [fallS_if] at hf
+  have hf' : fallL body = true := by simpa [isTrueLit] using hf
+  have hT := good_blockOf F B _ _ body (good_stmts F body B hb)
+  rw [Compile.compileStmt_eq] at hc
+  simp only at hc
+  obtain ⟨cs1, cs2, hact, hi1, hi', hcov1, hok1, hinv1⟩ := withBlock_inv F hc hT.toC.pure_bind hcov hok hinv
+  obtain ⟨_, csx, hp, hact⟩ := bind_inv hact
+  obtain ⟨_, rfl⟩ := pure_inv hp
+  have := falls_blockOf F B body hb fb hact hcov1 hok1 hinv1 hf'
+  rw [hi', ← hi1]; exact this
+
+theorem fall_incdec (F : FloatOps) (B : List String) (pos : Pos) (tok : Nat) (tp p : Pos) (x : String) (hx : x ∈ B) :
+    FallS B (.incdec pos tok tp (.ident p x)) := by
+  intro cs cs' hc hcov hok hinv _
+  rw [compileStmt_incdec] at hc
+  have hop : ∃ op, Compile.compoundOp (if tok == tDec then tSubAssign else tAddAssign) = some op := by
+    split
+    · exact ⟨_, rfl⟩
+    · exact ⟨_, rfl⟩
+  obtain ⟨op, hop⟩ := hop
+  exact fall_compound F B pos p x (.int tp 1#64) _ op rfl hx hop cs cs' hc hcov hok hinv rfl
+
+theorem fall_varDecl0 (F : FloatOps) (B : List String) (pos ipos : Pos) (iota : Option Nat) (x : String)
+    (hx : x ≠ "_") : FallS B (.declValue pos tVar [(iota, [(ipos, x)], [])]) := by
+  intro cs cs' hc hcov hok hinv _
+  rw [compileStmt_var0] at hc
+  exact fall_defineCore F B pos x (.undef ipos) rfl hx hc hcov hok hinv
 
 /-! ### `if`: a jump of the statement targets its end -/
 
@@ -657,6 +782,12 @@ theorem fstep_stmts {F : FloatOps} {n : Nat} (ih : AllF F n) : ∀ ss, sizeOf ss
     have e2 := f2 cs1 cs' hc2 hcov1 hok1 g1.1 hfall.2
     exact (e1.pre g2.2.pre (Nat.le_refl _)).seq e2 g1.2.pre.1
 
+theorem okE_of_condF {B : List String} {c : Expr} (h : condF B c = true) : okE c = true := by
+  by_cases ht : isTrueLit c = true
+  · obtain ⟨p, rfl⟩ := isTrueLit_inv ht
+    simp [okE]
+  · exact okE_of_exprF _ c (condF_split h ht).1
+
 theorem fstep_else {F : FloatOps} {n : Nat} (ih : AllF F n) (e : Stmt) (hsz : sizeOf e < n + 1) (B : List String)
     (h : ElseF B e = true) : okS e = true := by
   cases e with
@@ -669,16 +800,16 @@ theorem fstep_else {F : FloatOps} {n : Nat} (ih : AllF F n) (e : Stmt) (hsz : si
     | none =>
       cases els with
       | none =>
-        have h' : (ExprF (bnd B) c && !isBoolLit c && StmtsF B body) = true := h
-        simp only [Bool.and_eq_true, Bool.not_eq_true'] at h'
+        have h' : (condF B c && StmtsF B body) = true := h
+        simp only [Bool.and_eq_true] at h'
         have okb := (ih.stmts body (by ssz) B h'.2).1
-        have okc := okE_of_exprF _ c h'.1.1
+        have okc := okE_of_condF h'.1
         simp [okS, okc, okb]
       | some e' =>
-        have h' : (ExprF (bnd B) c && !isBoolLit c && StmtsF B body && ElseF B e') = true := h
-        simp only [Bool.and_eq_true, Bool.not_eq_true'] at h'
+        have h' : (condF B c && StmtsF B body && ElseF B e') = true := h
+        simp only [Bool.and_eq_true] at h'
         have okb := (ih.stmts body (by ssz) B h'.1.2).1
-        have okc := okE_of_exprF _ c h'.1.1.1
+        have okc := okE_of_condF h'.1.1
         have oke := ih.els e' (by ssz) B h'.2
         simp [okS, okc, okb, oke]
   | _ => cases h
@@ -707,18 +838,28 @@ theorem fstep_stmt {F : FloatOps} {n : Nat} (ih : AllF F n) (st : Stmt) (hsz : s
     | none =>
       cases els with
       | none =>
-        have h' : (ExprF (bnd B) c && !isBoolLit c && StmtsF B body) = true := h
-        simp only [Bool.and_eq_true, Bool.not_eq_true'] at h'
-        have okb := (ih.stmts body (by ssz) B h'.2).1
-        have okc := okE_of_exprF _ c h'.1.1
-        exact ⟨by simp [okS, okc, okb], fall_if F B pos bp c body h'.1.1 h'.1.2 h'.2⟩
+        have h' : (condF B c && StmtsF B body) = true := h
+        simp only [Bool.and_eq_true] at h'
+        obtain ⟨okb, fb⟩ := ih.stmts body (by ssz) B h'.2
+        have okc := okE_of_condF h'.1
+        refine ⟨by simp [okS, okc, okb], ?_⟩
+        by_cases ht : isTrueLit c = true
+        · obtain ⟨p, rfl⟩ := isTrueLit_inv ht
+          exact fall_ifTrue F B pos bp p body none h'.2 fb
+        · obtain ⟨h1, h2⟩ := condF_split h'.1 ht
+          exact fall_if F B pos bp c body h1 h2 h'.2
       | some e' =>
-        have h' : (ExprF (bnd B) c && !isBoolLit c && StmtsF B body && ElseF B e') = true := h
-        simp only [Bool.and_eq_true, Bool.not_eq_true'] at h'
-        have okb := (ih.stmts body (by ssz) B h'.1.2).1
-        have okc := okE_of_exprF _ c h'.1.1.1
+        have h' : (condF B c && StmtsF B body && ElseF B e') = true := h
+        simp only [Bool.and_eq_true] at h'
+        obtain ⟨okb, fb⟩ := ih.stmts body (by ssz) B h'.1.2
+        have okc := okE_of_condF h'.1.1
         have oke := ih.els e' (by ssz) B h'.2
-        exact ⟨by simp [okS, okc, okb, oke], fall_ifElse F B pos bp c body e' h'.1.1.1 h'.1.1.2 h'.1.2 h'.2 okb⟩
+        refine ⟨by simp [okS, okc, okb, oke], ?_⟩
+        by_cases ht : isTrueLit c = true
+        · obtain ⟨p, rfl⟩ := isTrueLit_inv ht
+          exact fall_ifTrue F B pos bp p body (some e') h'.1.2 fb
+        · obtain ⟨h1, h2⟩ := condF_split h'.1.1 ht
+          exact fall_ifElse F B pos bp c body e' h1 h2 h'.1.2 h'.2 okb
   | assign pos tok lhs rhs =>
     cases lhs with
     | nil => cases h
@@ -758,12 +899,17 @@ theorem fstep_stmt {F : FloatOps} {n : Nat} (ih : AllF F n) (st : Stmt) (hsz : s
                   exact fall_compound F B pos p x r tok op hr (by simpa using hk.2) hop
             | _ => cases h
   | declValue pos tok specs =>
-    obtain ⟨iota, ipos, x, e, rfl, h'⟩ := stmtF_declValue h
-    simp only [Bool.and_eq_true] at h'
-    have ht : tok = tVar := by simpa using h'.1.2
-    subst ht
-    have oke := okE_of_exprF _ e h'.1.1
-    exact ⟨by simp [okS, okSpecs, okVals, oke], fall_varDecl F B pos ipos iota x e h'.1.1 (by simpa using h'.2)⟩
+    have h' : declF B tok specs = true := h
+    rcases declF_inv h' with ⟨iota, ipos, x, e, rfl, h1, rfl, h3⟩ | ⟨iota, ipos, x, rfl, rfl, h3⟩
+    · have oke := okE_of_exprF _ e h1
+      exact ⟨by simp [okS, okSpecs, okVals, oke], fall_varDecl F B pos ipos iota x e h1 h3⟩
+    · exact ⟨by simp [okS, okSpecs, okVals], fall_varDecl0 F B pos ipos iota x h3⟩
+  | incdec pos tok tp e =>
+    cases e with
+    | ident p x =>
+      have hx : B.contains x = true := h
+      exact ⟨by simp [okS, okE], fall_incdec F B pos tok tp p x (by simpa using hx)⟩
+    | _ => cases h
   | _ => cases h
 
 theorem allF (F : FloatOps) : ∀ n, AllF F n
